@@ -23,7 +23,8 @@ COMMON_ASSUMPTIONS = [
     'termination of the verified functions is not proved (only the C11 measure/no-stuck/exit lemmas)',
 ]
 
-SCHED = [f'{TS}.__init__', f'{TS}.process_tasks', f'{TS}.insert_task', f'{TS}.start_task', f'{TS}.complete_task',
+VALDEPS = ['labtech.tasks:find_tasks_in_param', 'labtech.tasks:get_direct_dependencies']
+SCHED = VALDEPS + [f'{TS}.__init__', f'{TS}.process_tasks', f'{TS}.insert_task', f'{TS}.start_task', f'{TS}.complete_task',
          f'{TS}.get_ready_tasks', f'{TC}.run', f'{TC}.handle_failure', f'{LAB}.run_tasks']
 SERIAL = [f'{SR}.submit_task', f'{SR}.wait', f'{SR}.cancel', f'{SR}.stop', f'{SR}.pending_task_count', f'{SR}.get_result',
           f'{SR}.remove_results']
@@ -36,7 +37,7 @@ EXEC = [f'{PE}._start_processes', f'{PE}.submit', f'{PE}.cancel', f'{PE}.stop', 
 A_RUN = 'A-run: user run()/filter_context()/post_init() are deterministic functions of the task fields, the context and the direct dependencies\' results, and terminate'
 A_PROC = 'A-proc (trusted multiprocessing model): a started process runs its thunk once; a future that finished without exception carries what the child function returned for that task; Manager().Queue delivers what was put'
 A_CACHE = 'A-cache0/A-atomic: entries present at call start were written by save for the task whose key they carry; only a task\'s own execution writes its key; is_cached(t) is stable between plan time and submit time for a task not yet executed'
-A_GDD = 'get_direct_dependencies is used through its contract (sound, complete by value, complete by instance); its body is verified against the value-tree spec in the C15/C02 value cone'
+A_GDD = 'A-tree: immutable parameter values are finite trees (the cycle guard of find_tasks_in_param never fires); A-norm: fields of a constructed task hold normalised values (post of _task_post_init, C15); dataclasses.fields/getattr are trusted'
 
 PROPS = {
     'C01': dict(functions=SCHED + SERIAL + PROC, lemmas=[], replay='replay.explore', standin='replay.explore',
